@@ -1,5 +1,7 @@
 import XalanModel.C19.XVecProofs
 import XalanModel.C19.XListProofs
+import XalanModel.C19.ArenaProofs
+import XalanModel.C19.XDeque
 /-!
 # C19 — pluggable memory manager: balanced use; allocation failure is survivable
 
@@ -81,11 +83,12 @@ theorem vector_strong_guarantee (v : XVec) (x : Int) (m : Nat) (l : Ledger) (fra
 the free list never ends in a wild pointer, and the only undefined steps are `pop_*` on an
 empty list. -/
 theorem list_step_contained (cfg : Cfg) (s : XList) (op : XList.Op) (l : Ledger) (frame : List Nat)
-    (n : Nat) (hc : cfg.nextInit = true) (hwild : s.wild = false) (h : Holds l s.owned frame n) :
+    (n : Nat) (hc : cfg.nextInit = true) (hwild : s.wild = false) (hf : s.HeadFirst)
+    (h : Holds l s.owned frame n) :
     Holds (XList.step cfg s l op).2.2 (XList.step cfg s l op).2.1.owned frame n ∧
     (XList.step cfg s l op).2.1.wild = false ∧
     ((XList.step cfg s l op).1 = .ub → (op = .popFront ∨ op = .popBack) ∧ s.nodes = []) :=
-  XList.step_spec cfg s op l frame n hc hwild h
+  XList.step_spec cfg s op l frame n hc hwild hf h
 
 /-- **List: balanced and failure-contained** — `_partial`: holds for the repaired
 `constructNode` (`cfg.nextInit`); for the code as written it fails, see
@@ -99,7 +102,7 @@ theorem list_balanced_and_failure_contained_partial (cfg : Cfg) (ops : List XLis
     (r.2.1.destroy r.2.2).2.bad = l.bad := by
   intro r
   have h0 : Holds l (XList.owned {}) frame l.bad := holds_of_perm hl
-  obtain ⟨hh, hwild⟩ := XList.run_spec cfg ops {} l frame l.bad hc rfl h0
+  obtain ⟨hh, hwild⟩ := XList.run_spec cfg ops {} l frame l.bad hc rfl (by intro _; exact ⟨rfl, rfl⟩) h0
   have hf := XList.run_headFirst cfg ops {} l (by intro _; exact ⟨rfl, rfl⟩)
   obtain ⟨a, b, _⟩ := XList.destroy_spec _ _ frame l.bad hwild hf hh
   have := holds_nil_perm b
@@ -217,6 +220,56 @@ theorem create_then_push_leaks_counterexample :
     let v0 := (XVec.pushBack {} 7 { failAt := 4 })
     let r := createThenPush create v0.2.1 v0.2.2
     r.1 = .oom ∧ r.2.2.1 = some 2 ∧ r.2.1.items = [7] ∧ r.2.2.2.live = [3, 2, 1] := by decide
+
+/-- **Arena block (ReusableArenaBlock + allocate/construct/commit protocol): balanced and
+failure-contained** — `_partial`: for the destructor that skips an allocated-but-uncommitted slot
+(proposed/C19-arena-uncommitted.diff); one block, not the block list of ArenaAllocator. Every
+history of `T::create` (constructor = one refusable allocation) and `destroyObject` on a freshly
+created block, every refusal index, every frame: the free-list discipline holds, `XalanDestroy` of
+the block runs no destructor on a slot without an object, returns every block and frees nothing
+twice or foreign. A history stops being defined only at a `destroyObject` of an empty slot (caller)
+or an exhausted free list. -/
+theorem arena_balanced_and_failure_contained_partial (n : Nat) (ops : List Arena.Op) (l : Ledger)
+    (frame : List Nat) (hl : l.live.Perm frame) :
+    (∀ l1, Arena.create n l = (none, l1) → l1.live.Perm frame ∧ l1.bad = l.bad) ∧
+    (∀ a l1, Arena.create n l = (some a, l1) →
+      let r := Arena.run ops a l1
+      (r.2.1.destroy true r.2.2).1 = .ok ∧ (r.2.1.destroy true r.2.2).2.live.Perm frame ∧
+      (r.2.1.destroy true r.2.2).2.bad = l.bad) := by
+  have h0 : Holds l [] frame l.bad := holds_of_perm hl
+  obtain ⟨hn, hs⟩ := Arena.create_spec n l frame l.bad h0
+  refine ⟨fun l1 he => holds_nil_perm (hn l1 he), fun a l1 he => ?_⟩
+  obtain ⟨hi, hh, _⟩ := hs a l1 he
+  intro r
+  obtain ⟨ri, rh⟩ := Arena.run_spec ops a l1 frame l.bad hi hh
+  obtain ⟨d1, d2⟩ := Arena.destroy_spec _ _ frame l.bad ri rh
+  have := holds_nil_perm d2
+  exact ⟨d1, this.1, this.2⟩
+
+/-- **Code as written: a constructor that throws between `allocateBlock()` and
+`commitAllocation()` makes `~ReusableArenaBlock` run a destructor on a slot that holds no object**
+(finding #6; block = requests 1–2, element = request 3 refused). -/
+theorem arena_uncommitted_slot_counterexample :
+    let c := Arena.create 2 { failAt := 3 }
+    ∃ a, c.1 = some a ∧
+      let r := Arena.run [.create 1] a c.2
+      r.1 = .ok ∧ r.2.1.pending = true ∧ (r.2.1.destroy false r.2.2).1 = .ub ∧
+      (r.2.1.destroy true r.2.2).1 = .ok ∧ (r.2.1.destroy true r.2.2).2.live = [] := by
+  refine ⟨_, rfl, ?_⟩
+  decide
+
+/-- **Code as written: `XalanDeque::pushNewIndexBlock` leaves the null placeholder in the block
+index when `XalanConstruct` is refused; the next `size()` / `push_back()` dereferences it.**
+(index buffer = request 1, block object = request 2 refused.)  With the placeholder popped
+before rethrowing (proposed/C19-deque-null-block.diff) the deque stays usable and balanced. -/
+theorem deque_null_block_counterexample :
+    let r := XDeque.pushBack false 1 { bs := 2 } { failAt := 2 }
+    r.1 = .oom ∧ r.2.1.idx.items = [0] ∧ r.2.1.size.1 = .ub ∧ (XDeque.pushBack false 5 r.2.1 r.2.2).1 = .ub ∧
+    (let q := XDeque.pushBack true 1 { bs := 2 } { failAt := 2 }
+     q.1 = .oom ∧ q.2.1.idx.items = [] ∧ q.2.1.size = (.ok, 0) ∧
+     (let q2 := XDeque.pushBack true 5 q.2.1 q.2.2
+      q2.1 = .ok ∧ q2.2.1.elems = [5] ∧ (q2.2.1.destroy q2.2.2).live = [] ∧ (q2.2.1.destroy q2.2.2).bad = 0)) := by
+  decide
 
 /-- non-vacuity: the hypotheses of the list/vector theorems are met by non-trivial reachable
 states (a refusal that really fires in the middle of a history). -/
